@@ -63,7 +63,8 @@ func checkStoreLog(log []sqlLogEntry) string {
 		okSeq := got == "select,write,outbox,commit"
 		failed := strings.Contains(got, "!")
 		// a failed statement ends the transaction by rollback; a failed commit is itself the end (nothing was applied)
-		if !okSeq && !(failed && (strings.HasSuffix(got, "rollback") || strings.HasSuffix(got, "commit!"))) {
+		// "select,write,rollback" without a failed statement: the outbox entry could not be encoded (event-encoding step)
+		if !okSeq && got != "select,write,rollback" && !(failed && (strings.HasSuffix(got, "rollback") || strings.HasSuffix(got, "commit!"))) {
 			return "Store transaction ran [" + got + "]"
 		}
 		// between begin and the end of the transaction no statement of Store may run outside it
@@ -80,6 +81,7 @@ func checkStoreLog(log []sqlLogEntry) string {
 func runSQLStore(kind string, ops []string) string {
 	e := newSQLEngine()
 	store := sqlstore.New(openSQL(e, "writer"), openSQL(e, "reader"), "workflow_records", "workflow_outbox")
+	defer releaseStoreOids(store)
 	var out []string
 	for _, op := range ops {
 		if strings.HasPrefix(op, "SF.") {
@@ -124,6 +126,8 @@ func genSQLStore(p *params, emit func(string, bool)) {
 		emit(fmt.Sprintf("sq SF.%d.1.1.1.2.1.4.10.1.0 L.1.0 T.1.1.0 O.1.10 Q.1.0.0.0.-.-.-", k), true)
 		emit(fmt.Sprintf("sq S.1.1.1.2.1.4.10.1.0 SF.%d.1.1.1.5.2.6.10.2.0 L.1.0 T.1.1.0 O.1.10 Q.1.0.0.0.-.-.- S.1.1.1.5.2.6.10.2.0 L.1.0 O.1.10", k), true)
 	}
+	emit("sq SB.1.1.1.2.1.4.10.1.0 L.1.0 T.1.1.0 O.1.10 Q.1.0.0.0.-.-.-", true)
+	emit("sq S.1.1.1.2.1.4.10.1.0 SB.1.1.1.5.2.6.10.2.0 L.1.0 T.1.1.0 O.1.10 Q.1.0.0.0.-.-.-", true)
 	for i := 0; i < p.pick(400, 6000); i++ {
 		ops := genStoreOps(r, 5+r.Intn(40), false)
 		for j := range ops {
